@@ -1718,7 +1718,7 @@ func runC03(c *Ctx) {
 		c.Note("oracle unavailable: reference meaning taken from the generator only")
 	}
 	c03Boundary(c, or)
-	workers := 8
+	workers := 4
 	if c.Thorough() {
 		workers = 16
 	}
